@@ -115,8 +115,10 @@ BOUNDS = {
                 'position; mixed shapes: joint histories 0..6 cycles with splittings and clear/clk(0); [b,a] '
                 'additionally all joint clk(1) histories of 7..8 cycles',
 }
+for k in ('quick', 'thorough'):
+    BOUNDS[k] += '; also one recorder kept running for 70 000 cycles (thorough: 140 000) without clear()'
 
-JOINT = ('mixed_ba', 'mixed_ab', 'mixed_all')
+JOINT = ('mixed_ba', 'mixed_ab', 'mixed_all', 'samename', 'samename_mix')
 RERENDER = ('w1', 'w4', 'regq1', 'alias4', 'dup1')
 
 
